@@ -88,6 +88,7 @@ class TriggerHandler:
         """
         self.__old_thread_trace = None
         self.__old_sys_trace = None
+        self.__tracing = False
         self._push_service = push_service
         self._tp_config: List[Trigger] = []
         self._config = config
@@ -106,6 +107,7 @@ class TriggerHandler:
         self.__old_thread_trace = threading.gettrace() if hasattr(threading, 'gettrace') else threading._trace_hook
         sys.settrace(self.trace_call)
         threading.settrace(self.trace_call)
+        self.__tracing = True
 
     def new_config(self, new_config: List['Trigger']):
         """
@@ -228,5 +230,9 @@ class TriggerHandler:
 
         Reset the settrace to the previous values.
         """
+        if not self.__tracing:
+            # we never installed our trace function (NO_TRACE / not started), so the hooks are not ours to reset
+            return
         sys.settrace(self.__old_sys_trace)
         threading.settrace(self.__old_thread_trace)
+        self.__tracing = False
